@@ -418,6 +418,80 @@ Definition c11_two_ok (rc : rcfg) (rh : rholder) (dump_keep dump_nokeep : writer
   && two_crash_checker rc rh dump_keep ins_pickle_scens
   && two_crash_checker rc rh dump_nokeep ins_pickle_scens.
 
+(* ---- a training: directory creation + weights save, and whether it can be RE-RUN after a kill ------ *)
+(* "sampling can continue": the resumed sampler retrains the level / block whose training was killed, in
+   the directory the kill left behind.  Directories only matter through the precondition of mkdir. *)
+Inductive dname := DLvl (n : nat) | DBlk (n : nat).
+   (* <output>/levels/level_n/   and   <output>/proposal/training/block_n/ *)
+Definition dname_eqb (a b : dname) : bool :=
+  match a, b with
+  | DLvl n, DLvl m => Nat.eqb n m
+  | DBlk n, DBlk m => Nat.eqb n m
+  | _, _ => false
+  end.
+Definition dset := dname -> bool.
+Definition dupd (ds : dset) (d : dname) : dset := fun e => if dname_eqb e d then true else ds e.
+
+Inductive top :=
+| TMkdir (d : dname) (exist_ok : bool)   (* os.makedirs(d, exist_ok=...): raises FileExistsError when d exists and not exist_ok *)
+| TMkdirIfAbsent (d : dname)             (* if not os.path.exists(d): os.makedirs(d[, exist_ok=True]) *)
+| TFile (o : op).                        (* a file operation of the weights save *)
+
+Definition tstep_a (a : fstate) (t : top) : fstate := match t with TFile o => astep a o | _ => a end.
+Definition tstep_d (ds : dset) (t : top) : dset :=
+  match t with TMkdir d _ => dupd ds d | TMkdirIfAbsent d => dupd ds d | TFile _ => ds end.
+Definition tenabled (a : fstate) (ds : dset) (t : top) : bool :=
+  match t with
+  | TMkdir d ok => ok || negb (ds d)
+  | TMkdirIfAbsent _ => true
+  | TFile o => alegal a o
+  end.
+(* every op of the list is enabled when the list is run from (a, ds) *)
+Fixpoint run_ok (a : fstate) (ds : dset) (tops : list top) : bool :=
+  match tops with
+  | [] => true
+  | t :: r => tenabled a ds t && run_ok (tstep_a a t) (tstep_d ds t) r
+  end.
+Fixpoint tfiles (tops : list top) : list op :=
+  match tops with [] => [] | TFile o :: r => o :: tfiles r | _ :: r => tfiles r end.
+Fixpoint dexec (tops : list top) (ds : dset) : dset :=
+  match tops with [] => ds | t :: r => dexec r (tstep_d ds t) end.
+(* everything a kill during the training may leave: (files, directories) *)
+Fixpoint tcrash (a : fstate) (ds : dset) (tops : list top) : list (fview * dset) :=
+  map (fun v => (v, ds)) (aviews a)
+  ++ match tops with [] => [] | t :: r => tcrash (tstep_a a t) (tstep_d ds t) r end.
+
+(* the training runs from the clean state, and can be run again from whatever a kill leaves *)
+Definition train_reusable (a0 : fstate) (d0 : dset) (tops : list top) : bool :=
+  run_ok a0 d0 tops
+  && forallb (fun vd => run_ok (closed (fst vd)) (snd vd) tops) (tcrash a0 d0 tops).
+Definition stuck_states (a0 : fstate) (d0 : dset) (tops : list top) : list nat :=
+  bad_from (fun vd => run_ok (closed (fst vd)) (snd vd) tops) 0 (tcrash a0 d0 tops).
+
+Definition trainer := dname -> fname -> payload -> list top.
+(* today: ImportanceFlowProposal.train / FlowProposal.train guard the makedirs, FlowModel.train uses exist_ok *)
+Definition train_ops_today : trainer :=
+  fun D F NEW => TMkdirIfAbsent D :: TMkdir D true :: map TFile (save_weights_ops F NEW).
+Definition train_ops_bare_mkdir : trainer :=
+  fun D F NEW => TMkdir D false :: TMkdir D true :: map TFile (save_weights_ops F NEW).
+
+Definition no_dirs : dset := fun _ => false.
+(* importance sampler: level n is trained with levels 0..n-1 complete, level n absent / stale; standard
+   sampler in block mode: block n is trained, earlier weights wherever the pickles say *)
+Definition train_reusable_ins (tr : trainer) : bool :=
+  forallb (fun ws => forallb (fun d0 => train_reusable (s_init (snd ws)) d0
+                                          (tr (match fst ws with Base (Lvl n) => DLvl n | _ => DLvl 0 end)
+                                              (fst ws) (s_new (snd ws))))
+                             [no_dirs; dupd no_dirs (match fst ws with Base (Lvl n) => DLvl n | _ => DLvl 0 end)])
+          ins_weights_scens.
+Definition train_reusable_std (tr : trainer) : bool :=
+  forallb (fun n => forallb (fun d0 =>
+        train_reusable (closed (set_all empty_fs [(PKL, Whole (PkP 1 (match n with 0 => NoW | S m => StdW (Base (Blk m)) end)));
+                                                  (Base (Blk (pred n)), match n with 0 => Absent | _ => Whole (WtP 5) end)]))
+                       d0 (tr (DBlk n) (Base (Blk n)) (WtP 6)))
+        [no_dirs; dupd no_dirs (DBlk n)]) [0; 1; 2].
+Definition train_reusable_all (tr : trainer) : bool := train_reusable_ins tr && train_reusable_std tr.
+
 (* ---- concrete states used by the refuted variants ---------------------------------------------- *)
 Definition view_at (a0 : fstate) (ops : list op) (i : nat) : fview :=
   nth i (crash_states a0 ops) empty_fs.
